@@ -543,7 +543,15 @@ func runC23Session(r *vk.Run, idx int, cfg sessCfg, nStreams int, budget int, sr
 		}
 		close(done)
 	}()
-	last, lastAt := cs.progress.Load(), time.Now()
+	// Progress = calls returned + non-heartbeat traffic on the wire (messages
+	// and payload bytes, sent and delivered). One large Write or Read over a
+	// byte-at-a-time carrier can legitimately take longer than the bound, so
+	// returned calls alone would mistake slow for stuck.
+	progressNow := func() int64 {
+		ws, wd := s.mon.idleSnapshot()
+		return cs.progress.Load() + ws + wd
+	}
+	last, lastAt := progressNow(), time.Now()
 	sessionStart := time.Now()
 	tick := time.NewTicker(50 * time.Millisecond)
 	defer tick.Stop()
@@ -559,7 +567,7 @@ wait:
 				res.Outcome = "over-budget"
 				break wait
 			}
-			if p := cs.progress.Load(); p != last {
+			if p := progressNow(); p != last {
 				last, lastAt = p, time.Now()
 				continue
 			}
@@ -586,7 +594,7 @@ wait:
 		w := witness()
 		w["goroutines"] = goroutineDump()
 		w["unfinished"] = cs.unfinished()
-		r.Violation(map[string]string{"rule": "stalled"}, fmt.Sprintf("session %d (%s): no Read, Write, open or accept returned for %s although the control heartbeat was healthy (max gap %s); written data cannot be read", idx, cfg, hangBound, hb.maxGap(lastAt)), w)
+		r.Violation(map[string]string{"rule": "stalled"}, fmt.Sprintf("session %d (%s): no Read, Write, open or accept returned and no message or payload byte moved on the wire for %s although the control heartbeat was healthy (max gap %s); written data cannot be read", idx, cfg, hangBound, hb.maxGap(lastAt)), w)
 	case "stalled-unhealthy":
 		r.Inconclusive("session stalled while the control heartbeat was unhealthy")
 	case "over-budget":
